@@ -268,6 +268,13 @@ func (W) Exec(p *world.Plan, env *world.Env) {
 						}
 					}
 				}
+				if !present {
+					// a generated name may be a non-Go symbol of the binary (C / assembly symbols of the race
+					// runtime, for example): then the symbol table itself is the truth
+					if e := env.Image.Lookup(o.name); e != 0 {
+						want, present = e, true
+					}
+				}
 			case 3:
 				want, present = varAddr[o.name]
 			}
